@@ -100,14 +100,16 @@ def xv(driver, timeout=600, env=None, **kw):
             what = next((l for l in tail if "memory allocation" in l or "overflow" in l or "panicked" in l), tail[0] if tail else "")
             return {"died": p.returncode, "partial": part, "what": what[:300]}
         out = str(kw.get("out", ""))
-        if p.returncode < 0 and out and os.path.exists(out) and os.path.getsize(out) > 0:
+        if (p.returncode < 0 or p.returncode == 101) and out and os.path.exists(out) and os.path.getsize(out) > 0:
+            # (101: a panic that reached the driver's main thread, e.g. through a lock that an earlier panic inside the
+            # code under test had poisoned)
             # killed by a signal (abort on allocation failure, stack overflow, ...) inside the code under test: the runs
             # recorded so far plus the death are handed to the check's trace validation (bin/check catches DriverDied)
             tail = [l for l in (p.stderr or "").splitlines() if l.strip()]
             what = next((l for l in tail if "memory allocation" in l or "overflow" in l or "panicked" in l), tail[0] if tail else "")
             with open(out, "a") as f:
-                f.write("\n" + json.dumps({"ev": "reset"}) + "\n" + json.dumps({"ev": "XvAbort", "driver": driver, "signal": -p.returncode, "what": what[:300]}) + "\n")
-            raise DriverDied(out, "xv %s died with signal %d: %s" % (driver, -p.returncode, what[:200]))
+                f.write("\n" + json.dumps({"ev": "reset"}) + "\n" + json.dumps({"ev": "XvAbort", "driver": driver, "signal": -p.returncode if p.returncode < 0 else 0, "what": what[:300]}) + "\n")
+            raise DriverDied(out, "xv %s died (rc %d): %s" % (driver, p.returncode, what[:200]))
         sys.stdout.write((p.stderr or "")[-4000:])
         raise ToolError("xv %s failed rc=%d" % (driver, p.returncode))
     last = [l for l in p.stdout.splitlines() if l.strip()]
